@@ -291,6 +291,13 @@ def apply_three_var_template(rng, cfg, case):
     def join(u, w, f1=None, f2=None):
         return ('cmp', rng.choice(('eq', 'eq', 'le', 'ne')), ('attr', f1 or rng.choice('ab'), ('var', u)),
                 ('attr', f2 or rng.choice('ab'), ('var', w)))
+    if rng.random() < 0.3:
+        # (2) a disjunction whose FIRST side joins a selected variable with a variable that is NOT selected and whose second
+        # side is over a third variable only: or_(J(a, c), G(b)), selecting a and b
+        case['cond'] = [('or', join(a, c, 'a', 'a'), single(b))]
+        case['sel'] = [('var', a), ('var', b)] if rng.random() < 0.7 else [('var', b), ('var', a)]
+        case['entity'] = False
+        return case
     if rng.random() < 0.5:
         disj = ('or', single(b), single(c))
         # (the conjunct over a is often true for every a, so that the right operand is asked again for the second a)
